@@ -126,7 +126,8 @@ class CBMMTrainer:
             ]
 
         if saliency is None:
-            saliency = np.ones_like(initialization[..., 0, :])
+            saliency = np.ones_like(
+                initialization[..., 0, :], dtype=y.real.dtype)
 
         if self.dimension is None:
             self.dimension = y.shape[-1]
